@@ -520,13 +520,29 @@ func (g *schemaGenerator) generateUnmarshaler(decl codegen.TypeDecl, validators 
 	}
 }
 
-func (g *schemaGenerator) generateType(t *schemas.Type, scope nameScope) (codegen.Type, error) {
+// hasNullBranch reports a null among the allOf/anyOf branches of t, at any depth: the
+// type name of a composition is looked up through its nested compositions.
+func hasNullBranch(t *schemas.Type, seen map[*schemas.Type]bool) bool {
+	if seen[t] {
+		return false
+	}
+
+	seen[t] = true
+
 	for _, branches := range [][]*schemas.Type{t.AllOf, t.AnyOf} {
 		for _, branch := range branches {
-			if branch == nil {
-				return nil, fmt.Errorf("allOf/anyOf branch: %w", errNullSubSchema)
+			if branch == nil || hasNullBranch(branch, seen) {
+				return true
 			}
 		}
+	}
+
+	return false
+}
+
+func (g *schemaGenerator) generateType(t *schemas.Type, scope nameScope) (codegen.Type, error) {
+	if hasNullBranch(t, map[*schemas.Type]bool{}) {
+		return nil, fmt.Errorf("allOf/anyOf branch: %w", errNullSubSchema)
 	}
 
 	if ext := t.GoJSONSchemaExtension; ext != nil {
